@@ -175,6 +175,15 @@ func c06ShowWire(data []byte) string {
 }
 
 // the session address as the rest of the BNG uses it: 4-byte form when it is an IPv4 address
+// the negotiated peer address the IPCP object remembers; while IPCP has never been started (FSM Initial)
+// nothing is sent and nothing adopted, what the handler notes for itself is not an observable of the property
+func c06PeerNeg(i *ppp.IPCP) string {
+	if i.FSM().State() == ppp.Initial {
+		return "-"
+	}
+	return c06ShowAddr(i.PeerConfig().Address)
+}
+
 func c06ShowAddr(ip net.IP) string {
 	if ip == nil {
 		return "nil"
@@ -218,7 +227,9 @@ func c06LCPOpened(s *SessionState, bus *c06Bus, first bool) bool {
 				c06LCPProbe = "no-answer"
 				for _, p := range bus.lcp[before:] {
 					switch {
-					case p.code == ppp.ConfNak && string(p.data) == string(m):
+					case p.code == ppp.ConfNak && len(p.data) == 6 && p.data[0] == 5 && p.data[1] == 6 &&
+						binary.BigEndian.Uint32(p.data[2:]) != 0:
+						// which number the Nak suggests is the implementation's choice
 						c06LCPProbe = "ok"
 					case p.code == ppp.ConfAck:
 						c06LCPProbe = "ACKED-OWN-MAGIC"
@@ -427,7 +438,7 @@ func c06Sess(f []string) string {
 			up = 1
 		}
 		parts = append(parts, fmt.Sprintf("%s up=%d a=%s pa=%s pn=%s", drain(), up, c06ShowAddr(s.IPv4Address),
-			c06ShowAddr(s.ipcp.PeerConfig().PeerAddress), c06ShowAddr(s.ipcp.PeerConfig().Address)))
+			c06ShowAddr(s.ipcp.PeerConfig().PeerAddress), c06PeerNeg(s.ipcp)))
 	}
 	return strings.Join(parts, " | ")
 }
